@@ -223,7 +223,10 @@ func (r *rewriter) run() {
 		r.swapImport("syscall", "verifrt/simsys", "syscall")
 		r.swapImport("github.com/creack/pty", "verifrt/simpty", "pty")
 		return
+	case modeMapOnly:
+		r.swapImport("os/exec", "verifrt/simos", "exec")
 	case modeFull:
+		r.swapImport("os/exec", "verifrt/simos", "exec")
 		r.swapImport("sync", rtSync, "sync")
 		if strings.HasSuffix(r.pkg.PkgPath, "/src/pclog") {
 			r.swapImport("crypto/rand", "verifrt/simrand", "rand")
@@ -374,6 +377,23 @@ func (r *rewriter) rewriteNode(root ast.Node) {
 				}
 				c.Replace(r.call("Recv1", r.site(n, "recv"), n.X))
 				r.changed = true
+			}
+		case *ast.SelectorExpr:
+			if r.mode == modeFull {
+				if obj := r.pkg.TypesInfo.Uses[n.Sel]; obj != nil && obj.Pkg() != nil && obj.Pkg().Path() == "time" {
+					switch obj.Name() {
+					case "NewTimer", "AfterFunc":
+						if _, ok := obj.(*types.Func); ok {
+							c.Replace(r.rt(obj.Name()))
+							r.changed = true
+						}
+					case "Timer":
+						if _, ok := obj.(*types.TypeName); ok {
+							c.Replace(r.rt("Timer"))
+							r.changed = true
+						}
+					}
+				}
 			}
 		case *ast.CallExpr:
 			if r.mode == modeFull {
